@@ -221,6 +221,16 @@ func judgeFrame(w *sim.Snap) (rule, sig, msg string) {
 			w.Line, w.Pos, t.W, t.H, anchorRow, anchorCol, anchorRow, l.lastRow, t.Dump()[anchorRow:l.lastRow+1])
 	}
 	for r := anchorRow; r <= l.lastRow; r++ {
+		if r > anchorRow && l.rowFrom[r] > 2 {
+			// the row of a buffer line after a newline: left of where its text starts there is the
+			// marker of the line (column sign, line number, secondary prompt) in the first two
+			// cells and nothing else
+			for c := 2; c < l.rowFrom[r] && c < t.W; c++ {
+				if cell := t.Rows[r][c]; !cell.Blank() {
+					return "C04.no-remnants", "layout:remnant-in-indent:" + shape, fmt.Sprintf("cell (%d,%d) in the indent of a continuation line shows %q (remnant of earlier content); %s", r, c, cell.S, ctx())
+				}
+			}
+		}
 		for c := l.rowFrom[r]; c < t.W; c++ {
 			cell := t.Rows[r][c]
 			want, covered := l.cells[cellPos{r, c}]
